@@ -9,11 +9,13 @@ HOOKS = {
     "guard": "verif",
     "enable": "harness is built with `go1.26 test -c -tags verif` against /repo's working tree (module replace => /repo)",
     "baseline_off_cmd": "cd /repo && go test -mod=mod -vet=off -count=1 -timeout 25m ./...",
-    "source_commits": ["9a44b60"],
+    "source_commits": ["9a44b60", "1e6abcd"],
     "add_only": True,
 }
 
 ENGINES = [
+    {"name": "conc", "path": "lib/domain.py (c13) + harness/concprobe + tla/{LockDiscipline,RowsLock}.tla", "serves_properties": ["C13"],
+     "kind_free_text": "concurrent seeded clients against one runner, -race build, lock-mode probe hooks; rows validated by TLC"},
     {"name": "realproc", "path": "lib/domain.py (c18, c19, c20) + harness/realprobe + tla/{Env,Logs,Procs,Rows*}.tla", "serves_properties": ["C18", "C19", "C20"],
      "kind_free_text": "real PipelineRunner + real TaskRunner + /bin/sh children; cases from TLC-enumerated specs; rows validated by TLC"},
     {"name": "store", "path": "lib/store_engine.py + harness/storeprobe + tla/{Store,StoreTrace}.tla", "serves_properties": ["C09"],
@@ -119,6 +121,17 @@ CHECKS["C20"] = {"engine": "realproc", "level": "exploration", "ref": "DESIGN.md
                          "shutdown run as real tasks; /proc is scanned for marked processes at the report of the job and 250 ms later; TLC validates "
                          "the rows.", "note": REAL_NOTE,
                  "technique": "TLA+ protocol spec model-checked with TLC; rows recorded from real process trees validated by TLC"}
+
+CHECKS["C13"] = {"engine": "conc", "level": "other", "ref": "DESIGN.md 6 C13",
+                 "text": "Reduced strength, in three parts: (a) LockDiscipline.tla - TLC shows that 'mutate only under the write lock, read only under "
+                         "some lock' implies no conflicting concurrent access, and refutes the variant with a mutation under the read lock; the "
+                         "discipline is bound to the code by lock-mode probes (TryRLock / TryLock from inside the critical section) at 16 access sites "
+                         "of PipelineRunner, validated by TLC on every recorded (site, mode) row; (b) snapshots taken by 8 concurrent seeded clients "
+                         "(one pipeline runs the real TaskRunner with real processes) must be consistent; (c) the probe is a -race build: data-race "
+                         "reports and runtime faults whose racing stack is prunner code are rows as well - the oracle named by the property itself.",
+                 "note": "The race detector only sees the schedules that happened (seeded, 2 x 1.5 s quick, 6 x 4 s thorough); accesses at sites without a "
+                         "probe are covered only by it. TryRLock/TryLock can only err towards 'held' (no false alarm). Trusted: Go race detector, TLC.",
+                 "technique": "TLA+ lock-discipline spec checked with TLC; lock-mode probe rows, reader snapshots and race-detector reports of a concurrent -race run validated by TLC"}
 
 NA = {}
 
